@@ -132,6 +132,17 @@ fn one(case: &Value) -> Value {
 }
 
 pub fn run(_args: &[String]) {
+    // Deeply nested generated programs (scale dimension of the generator) recurse deeply in the parser,
+    // checker, lowering and emitter: run on a thread with a large stack so that a nesting depth the
+    // `incan` binary itself cannot handle on its 8 MiB main stack does not take the runner down.
+    let h = std::thread::Builder::new()
+        .stack_size(2usize << 30)
+        .spawn(run_inner)
+        .expect("spawn");
+    let _ = h.join();
+}
+
+fn run_inner() {
     each_line(|line| {
         let case: Value = match serde_json::from_str(line) {
             Ok(v) => v,
